@@ -134,6 +134,54 @@ func runC11Stress(t *vs.Tape, cfg map[string]string) (res vs.Result) {
 		return
 	default:
 	}
+	// Quiescent again. Two callers now change the two scanner settings at the same
+	// moment, round after round; once both calls have returned, a scan started
+	// afterwards must be evaluated under exactly the two values just set.
+	{
+		probe := detection.Signature{ID: "P", Name: "probe", Severity: "LOW", Category: "c", TopologyHash: detection.GenerateTopologyHash(poolTopos[0]),
+			FuzzyHash: poolTopos[0].FuzzyHash, EntropyScore: poolTopos[0].EntropyScore + 0.3, EntropyTolerance: 0, NodeCount: 4, LoopDepth: 1}
+		if err := s.AddSignature(&probe); err != nil {
+			res.Infra = "probe add: " + err.Error()
+			return
+		}
+		fm := newStoreModel()
+		ids, err := s.ListSignatureIDs()
+		if err != nil {
+			res.Infra = "list: " + err.Error()
+			return
+		}
+		for _, id := range ids {
+			if sg, err := s.GetSignature(id); err == nil {
+				fm.sigs[id] = *sg
+			}
+		}
+		rounds := 200 + t.Intn(200, "pair.rounds")
+		for r := 0; r < rounds; r++ {
+			thr, tol := 0.3, 1.0
+			if r%2 == 1 {
+				thr, tol = 0.95, 0.05
+			}
+			start := make(chan struct{})
+			var pw sync.WaitGroup
+			pw.Add(2)
+			go func() { defer pw.Done(); <-start; s.SetThreshold(thr) }()
+			go func() { defer pw.Done(); <-start; s.SetEntropyTolerance(tol) }()
+			close(start)
+			pw.Wait()
+			got, err := s.ScanTopology(poolTopos[0], "f0")
+			if err != nil {
+				res.Violation = vs.Violationf("C11/scan-error", "ScanTopology after both setters returned: %v", err)
+				return
+			}
+			want := specAlerts(fm.sigs, poolTopos[0], "f0", thr, tol, false)
+			if v := compareAlerts("C11/settings-pair", fmt.Sprintf("round %d: SetThreshold(%v) and SetEntropyTolerance(%v) were called at the same moment by two callers and both returned; a scan started afterwards", r, thr, tol), got, want); v != nil {
+				v.Msg += " (evaluated under a threshold/tolerance pair that was never in force after both calls returned)"
+				res.Violation = v
+				return
+			}
+		}
+		c.Add("setter_pair_rounds", int64(rounds))
+	}
 	c.Add("stress_ops", int64((nR+nW)*nOps))
 	res.Digest = vs.Hash(fmt.Sprint(wplans, rplans))
 	res.Nontrivial = true
